@@ -188,6 +188,10 @@ class Tie:
         if real_res_bytes(o["enc"]) != coq_res_bytes(enc) or real_res_bytes(o["enc_ref"]) != coq_res_bytes(enc) or real_res_bytes(o["renamed"]) != coq_res_bytes(ren):
             self.bad("tie-broken", "Parse encoder differs from the model on %s" % b.hex(), case)
             return False
+        if np < 0 and struct.unpack(">i", b[1:5])[0] == len(b) - 1 and "parse-negative-count" not in self.findings:
+            e = o["renamed"]
+            what = "panics (overflow check)" if e["r"] == "panic" else ("emits length field %d for a %d-byte frame" % (struct.unpack(">i", bytes.fromhex(e["hex"])[1:5])[0], len(e["hex"]) // 2 - 1) if e["r"] == "ok" else e["r"])
+            self.findings["parse-negative-count"] = (b.hex(), what)
         # hash: SipHash-1-3 of the model's hasher stream must be the real key; renaming never changes it
         if L.sip13(bytes(hs)) != int(o["hash"]) or o["hash_renamed"] != o["hash"]:
             self.bad("tie-broken", "Parse::get_hash is not SipHash13(query, num_params, param_types) of the decoded fields on %s" % b.hex(), case)
@@ -629,44 +633,42 @@ def predict(programs, tag="c08p"):
     return out
 
 
-# Scenarios whose model prediction differs from a direct connection (confirmed gaps of the refinement theorem), each with the
-# message sequence; "wire": must be confirmed on the wire harness (in-process pgcat + mock backends with a statement table).
+# Scenarios in which pgcat (and the model) still differ from a direct connection: the remaining known classes, each CONFIRMED on the
+# wire (model = implementation != direct connection).
 WITNESSES = [
-    ("i-first-parse-fails-second-stays-cached", 8, 1,
-     [P(0, 1, 90), P(0, 2, 10), S(0, 0), P(0, 2, 10), S(0, 0), B(0, 2), E(0), S(0, 0)],
-     "two Parses in one batch, the first fails: one ErrorResponse pops ONE registering entry, PGCAT_1 (skipped by the backend) stays in the server cache; the client's retry of Parse s2 is answered with a synthesised ParseComplete and its Bind fails (26000)"),
-    ("i-other-client-hit", 8, 1,
-     [P(0, 1, 90), P(0, 2, 10), S(0, 0), P(1, 7, 10), B(1, 7), E(1), S(1, 0)],
-     "same as above, the victim is ANOTHER client preparing the same text on that server connection"),
-    ("close-then-parse-same-name", 8, 1,
-     [P(0, 1, 10), S(0, 0), C(0, 1), P(0, 1, 11), S(0, 0), B(0, 1), E(0), S(0, 0)],
-     "Close s1 + Parse s1 in one batch: the map entry is inserted when the Parse is buffered and removed when the Close is processed at Sync; the next Bind s1 gets 'prepared statement does not exist' and the client is disconnected"),
-    ("close-parse-bind-same-batch-poisons-server", 8, 1,
-     [P(0, 1, 10), S(0, 0), C(0, 1), P(0, 1, 11), B(0, 1), E(0), S(0, 0), P(1, 5, 11), B(1, 5), E(1), S(1, 0)],
-     "Close s1, Parse s1, Bind s1, Execute, Sync: client 0's task ends inside the 'S' arm after PGCAT_1 was put in the server cache but before its Parse was sent; client 1 (same text) then gets ParseComplete from the cache and an error on Bind"),
-    ("bind-then-reparse-lands-on-other-server", 8, 2,
-     [P(0, 1, 10), S(0, 0), B(0, 1), E(0), C(0, 1), P(0, 1, 11), S(0, 1)],
-     "Bind s1 is renamed when buffered (old statement) but ensure_prepared_statement_is_on_server looks s1 up at Sync (new statement): on a server connection without the old statement the Bind fails"),
-    ("v-cache-size-1-two-parses-then-bind-first", 1, 1,
+    ("F11e-cache-size-1-two-parses-then-bind-first", 1, 1,
      [P(0, 1, 10), P(0, 2, 11), B(0, 1), E(0), S(0, 0)],
-     "cache size 1: the second Parse evicts the first (Close sent out of band before the Parse itself), Bind s1 re-prepares it out of band, then the client's own Parse of the same name arrives: 42P05, the batch fails"),
-    ("v-more-parses-than-cache-leaks-statement", 2, 1,
+     "F11e: cache size 1, Parse s1, Parse s2, Bind s1, Execute, Sync: the second Parse evicts the first (its Close goes out of band before its Parse was sent), Bind s1 re-prepares it out of band, then the client's own Parse of the same name arrives: 42P05, the batch fails"),
+    ("F11e-more-parses-than-cache-leaks-statement", 2, 1,
      [P(0, 1, 10), P(0, 2, 11), P(0, 3, 12), S(0, 0), B(0, 1), E(0), S(0, 0), B(0, 1), E(0), S(0, 0)],
-     "k+1 Parses in one batch with cache size k: PGCAT_0 is evicted (Close sent) before its Parse reaches the backend, so the backend keeps a statement the cache does not know; the next Bind s1 re-Parses it (42P05, swallowed, s1 dropped from the client map) and the Bind after that disconnects the client"),
-    ("iv-client-deallocate-all", 4, 1,
-     [P(0, 1, 10), S(0, 0), P(1, 1, 99), B(1, 1), E(1), S(1, 0), B(0, 1), E(0), S(0, 0)],
-     "client 1 runs DEALLOCATE ALL (CommandComplete tag is not PREPARE, no cleanup): the backend forgets every PGCAT statement, the server cache does not; client 0's Bind fails"),
-    ("failed-parse-stays-in-client-map-close-skipped", 2, 2,
-     [P(1, 1, 10), S(1, 0), P(1, 2, 11), S(1, 0), P(0, 1, 90), S(0, 1), B(0, 1), E(0), S(0, 0), B(1, 1), E(1), S(1, 0), B(1, 1), E(1), S(1, 0)],
-     "a Parse that failed stays in the client map; its Bind re-sends it out of band together with the Close of the evicted PGCAT_0: the error makes the backend skip that Close, PGCAT_0 leaks; client 1's next Bind s1 re-Parses PGCAT_0 (42P05, swallowed, s1 dropped from its map) and the Bind after that disconnects client 1"),
+     "F11e: k+1 Parses in one batch with cache size k: PGCAT_0 is evicted (Close sent) before its Parse reaches the backend, so the backend keeps a statement the cache does not know; the next Bind s1 re-Parses it (42P05, swallowed, s1 dropped from the client map) and the Bind after that disconnects the client"),
+    ("F11g-failed-parse-stays-in-map-drains-other-registration", 4, 2,
+     [P(0, 9, 90), S(0, 1), P(0, 1, 10), B(0, 9), E(0), S(0, 0), P(1, 1, 10), B(1, 1), E(1), S(1, 0)],
+     "F11g (unrepaired half): a Parse that failed stays in the client map; a later batch [Parse s1 good, Bind s9, Execute, Sync] re-sends the bad Parse out of band, its ErrorResponse drains the registering queue INCLUDING PGCAT_1 whose Parse is still waiting in the batch: the backend gets PGCAT_1, the cache forgets it; the next client preparing that text gets 42P05"),
+    ("F11f3-deallocate-all-then-parse-same-batch", 4, 1,
+     [P(0, 1, 99), B(0, 1), E(0), P(0, 2, 10), S(0, 0), P(1, 1, 10), B(1, 1), E(1), S(1, 0)],
+     "F11f3: DEALLOCATE ALL executed in a batch that also Parses a statement AFTER it: CommandComplete clears the whole server cache, including the name registered for the later Parse, which the backend then does create; the next Parse of that text gets 42P05"),
+    ("L-failed-parse-then-bind-twice-disconnects", 4, 1,
+     [P(0, 1, 90), S(0, 0), B(0, 1), E(0), S(0, 0), B(0, 1), E(0), S(0, 0)],
+     "lenient/by design: Bind of a name that does not exist answers ErrorResponse+ReadyForQuery and then DISCONNECTS the client (a direct connection answers 26000 and carries on)"),
 ]
-# scenarios that must AGREE with a direct connection (investigated, found fine)
+# Repaired defects (regressions: must behave like a direct connection on the wire AND in the model) and investigated-fine scenarios
 FINE = [
+    ("fixed-F11a-first-parse-fails-second-retried", 8, 1, [P(0, 1, 90), P(0, 2, 10), S(0, 0), P(0, 2, 10), S(0, 0), B(0, 2), E(0), S(0, 0)]),
+    ("fixed-F11a-other-client", 8, 1, [P(0, 1, 90), P(0, 2, 10), S(0, 0), P(1, 7, 10), B(1, 7), E(1), S(1, 0)]),
+    ("fixed-F11b-close-then-parse-same-name", 8, 1, [P(0, 1, 10), S(0, 0), C(0, 1), P(0, 1, 11), S(0, 0), B(0, 1), E(0), S(0, 0)]),
+    ("fixed-F11c-close-parse-bind-same-batch", 8, 1, [P(0, 1, 10), S(0, 0), C(0, 1), P(0, 1, 11), B(0, 1), E(0), S(0, 0), P(1, 5, 11), B(1, 5), E(1), S(1, 0)]),
+    ("fixed-F11d-bind-then-reparse-other-server", 8, 2, [P(0, 1, 10), S(0, 0), B(0, 1), E(0), C(0, 1), P(0, 1, 11), S(0, 1)]),
+    ("fixed-F11f-client-deallocate-all", 4, 1, [P(0, 1, 10), S(0, 0), P(1, 1, 99), B(1, 1), E(1), S(1, 0), B(0, 1), E(0), S(0, 0)]),
+    ("fixed-F11g-close-of-evicted-not-skipped", 2, 2,
+     [P(1, 1, 10), S(1, 0), P(1, 2, 11), S(1, 0), P(0, 1, 90), S(0, 1), B(0, 1), E(0), S(0, 0), B(1, 1), E(1), S(1, 0), B(1, 1), E(1), S(1, 0)]),
     ("ii-pool-eviction-while-client-holds-arc", 1, 1, [P(0, 1, 10), S(0, 0), P(1, 1, 11), S(1, 0), P(1, 2, 10), B(1, 2), E(1), S(1, 0), B(0, 1), E(0), S(0, 0)]),
     ("iii-same-statement-two-names", 4, 2, [P(0, 1, 10), P(0, 2, 10), S(0, 0), C(0, 1), S(0, 0), B(0, 2), E(0), S(0, 1)]),
     ("iv-deallocate-all-at-checkin", 4, 1, [P(0, 1, 10), S(0, 0), CL(0), B(0, 1), E(0), S(0, 0)]),
     ("v-cache-size-1-parse-bind-one-batch", 1, 1, [P(0, 1, 10), B(0, 1), E(0), S(0, 0), P(0, 2, 11), B(0, 2), E(0), S(0, 0), B(0, 1), E(0), S(0, 0)]),
     ("two-clients-same-name-different-statements", 4, 2, [P(0, 1, 10), P(1, 1, 11), S(0, 0), S(1, 0), B(0, 1), E(0), S(0, 1), B(1, 1), E(1), S(1, 1)]),
+    ("unnamed-statement-reparsed-in-one-batch", 2, 1, [P(0, 0, 10), B(0, 0), E(0), P(0, 0, 11), B(0, 0), E(0), S(0, 0), P(0, 0, 12), B(0, 0), E(0), S(0, 0)]),
+    ("batch-insert-one-statement-bound-many-times", 1, 1, [P(0, 1, 10), S(0, 0)] + [B(0, 1), E(0)] * 6 + [S(0, 0)]),
 ]
 
 
@@ -683,7 +685,7 @@ def pool_tie(run, binp, quick):
     for size, steps in cases:
         ops.append({"op": "poolcache", "size": size,
                     "steps": [{k: L.parse_msg(b"n%d" % i, stmt_sql(st)[0].encode(), stmt_sql(st)[1]).hex()} for i, (k, st) in enumerate(steps)]})
-    real = [L.run_codec(binp, [o])[0] for o in ops]          # one process each would reset the counter; names are canonicalised instead
+    real = [L.run_codec(binp, [o])[0] for o in ops]          # names are canonicalised by first appearance (the counter is global)
     exprs = ["pool_run (Kgen %d 1) world0 [%s]" % (size, "; ".join(("PGet %d" if k == "get" else "PProm %d") % st for k, st in steps)) for size, steps in cases]
     vals = [vlib.parse_coq(v) for v in L.coq_eval("c08pool", PRE2, exprs)]
     n = 0
@@ -745,7 +747,7 @@ def layer2(run, quick):
         mo = [(o["kind"], o["client"], [r for r in o["replies"] if not isinstance(r, str) or r == "RErr"]) for o in pr["client_obs"]]
         so = [(o["kind"], o["client"], [r for r in o["replies"] if not isinstance(r, str) or r == "RErr"]) for o in pr["direct_connection"]]
         if mo == so or pr["guard"]:
-            run.broken.append("witness %s no longer separates the model from the direct-connection specification" % name)
+            run.broken.append("witness %s no longer separates the model from the direct-connection specification (repaired? move it to FINE)" % name)
         wire.append({"name": name, "cache_size": k, "servers": ns, "ops": ops, "why": why, "model": pr, "needs_wire_confirmation": True})
     for (name, k, ns, ops), pr in zip(FINE, preds[len(WITNESSES):]):
         mo = [(o["kind"], o["client"], [r for r in o["replies"] if not isinstance(r, str) or r == "RErr"]) for o in pr["client_obs"]]
@@ -775,57 +777,46 @@ def wire_cases(seed=1, n=50):
 
 # ------------------------------------------------------------------------------------------------ layer 2 on the wire
 F11 = {
-    "F11a": "F11a-failed-parse-leaves-later-parse-cached",
-    "F11b": "F11b-close-then-parse-same-batch",
-    "F11c": "F11c-task-dies-in-sync-arm-poisons-server-cache",
-    "F11d": "F11d-bind-renamed-at-buffer-time-ensure-at-sync",
     "F11e": "F11e-more-statements-in-a-batch-than-cache",
-    "F11f": "F11f-client-deallocate-all",
-    "F11g": "F11g-failed-parse-stays-in-client-map-close-skipped",
+    "F11g": "F11g-failed-parse-stays-in-client-map",
+    "F11f3": "F11f3-deallocate-all-then-parse-same-batch",
     "lenient": "L-unknown-name-disconnects/close-unnamed-kept",
 }
 
 
 def classify_gap(prog):
-    """which known gap(s) of c08_refines_direct a program with guard = false can run into (syntactic classes)"""
+    """which remaining known gap(s) of c08_refines_direct a program with guard = false can run into (syntactic classes)"""
     k, cls = prog["k"], set()
     sts = {o["st"] for o in prog["ops"] if o["op"] == "Parse"}
     if any(90 <= s <= 97 for s in sts):
-        cls |= {"F11a", "F11g"}
+        cls |= {"F11g", "lenient"}          # a failed Parse stays in the client map; Bind of a name that does not exist disconnects
     if 99 in sts:
-        cls.add("F11f")
-    batch = {}
-    tabs = {}
+        cls.add("F11f3")
+    batch, tabs = {}, {}
     for o in prog["ops"]:
         kd = o["op"]
-        if kd in ("Sync", "Cleanup"):
-            if kd == "Sync":
-                b = batch.pop(o["c"], [])
-                seen, names = set(), set()
-                for x in b:
-                    if x["op"] == "Parse":
-                        if ("C", x["n"]) in seen:
-                            cls |= {"F11b", "F11c"}
-                        if ("B", x["n"]) in seen or ("P", x["n"]) in seen:
-                            cls.add("F11d")
-                        seen.add(("P", x["n"])); names.add(x["n"])
-                        tabs.setdefault(o["c"], set()).add(x["n"])
-                    elif x["op"] in ("Bind", "Describe"):
-                        if x["n"] not in tabs.get(o["c"], set()) or ("C", x["n"]) in seen:
-                            cls.add("lenient")
-                        seen.add(("B", x["n"])); names.add(x["n"])
-                    elif x["op"] == "Close":
-                        seen.add(("C", x["n"]))
-                        if x["n"] == 0:
-                            cls.add("lenient")
-                    elif x["op"] == "Execute" and not any(t == "B" for t, _ in seen):
+        if kd == "Sync":
+            b = batch.pop(o["c"], [])
+            need, known, bound = 0, set(), False
+            t = tabs.setdefault(o["c"], set())
+            for x in b:
+                if x["op"] == "Parse":
+                    need += 1; known.add(x["n"]); t.add(x["n"])
+                elif x["op"] in ("Bind", "Describe"):
+                    if x["n"] not in t:
                         cls.add("lenient")
-                for x in b:
-                    if x["op"] == "Close":
-                        tabs.get(o["c"], set()).discard(x["n"])
-                if len(names) > k:
-                    cls.add("F11e")
-        else:
+                    if x["n"] not in known:
+                        need += 1; known.add(x["n"])
+                    bound = bound or x["op"] == "Bind"
+                elif x["op"] == "Close":
+                    t.discard(x["n"]); known.discard(x["n"])
+                    if x["n"] == 0:
+                        cls.add("lenient")
+                elif x["op"] == "Execute" and not bound:
+                    cls.add("lenient")
+            if need > k:
+                cls.add("F11e")
+        elif kd != "Cleanup":
             batch.setdefault(o["c"], []).append(o)
     return cls
 
@@ -905,6 +896,12 @@ def wire_tie(run, quick, extra=()):
                 return st
         elif like:
             st["guard_false_like_direct"] += 1
+            if p["name"].startswith("F11") or p["name"].startswith("L-"):
+                run.broken.append("known-defect witness %s now behaves like a direct connection on the wire (repaired? move it to FINE and update known classes)" % p["name"])
+        elif p["name"].startswith("fixed-"):
+            run.violation("counterexample", "regression: the repaired scenario %s differs from a direct connection again" % p["name"],
+                          dict(rep, impl={str(c): v for c, v in a.items()}, direct={str(c): v for c, v in spec.items()}))
+            return st
         else:
             cls = classify_gap(p)
             if not cls:
@@ -928,9 +925,11 @@ def check(run):
         "SipHash-1-3 collisions proper are outside the codec theorems (hstream injectivity is proved; hash_collision_free is a hypothesis of the cache theorems)",
         "Rust's String::from_utf8_lossy is modelled by Codec.lossy (validated by the non-UTF-8 stream); theorems carry the guard cleanb (text unchanged by from_utf8_lossy)",
         "length fields in the malformed stream are bounded by 2^27 and Bind parameter lengths by 2^20 (the real code allocates that much before checking)",
-        "layer 2 (Cache.v) is a hand transcription of client.rs buffer_*/'S' arm, server.rs register_prepared_statement/recv and pool.rs PreparedStatementCache; its wire-level tie is not part of this check yet",
+        "layer 2 (Cache.v) is a hand transcription of client.rs buffer_*/'S' arm, server.rs register_prepared_statement/recv and pool.rs PreparedStatementCache, tied on every run to pgcat in-process + mock PostgreSQL backends (harness bin wire): per-Sync client replies and per-connection backend message logs must be equal",
+        "wire programs are batch-atomic (a client's buffered messages travel with its Sync): interleaved buffering of several clients is covered by the proof and by model-level sampling only; the transaction->connection assignment is forced with blocker clients and read back from the backend log",
+        "harness/src/mockpg.rs is the executable PostgreSQL session model (named statements, 42P05/26000/34000, skip-until-Sync, DEALLOCATE ALL); it is not validated against a real PostgreSQL",
     ]
-    run.cov["trusted_base"] = ["coqc 8.16.1 kernel", "vm_compute", "coq/Prep/Codec.v (hand transcription, tied)", "coq/Prep/Cache.v (hand transcription, NOT yet tied to the wire)",
+    run.cov["trusted_base"] = ["coqc 8.16.1 kernel", "vm_compute", "coq/Prep/Codec.v (hand transcription, tied)", "coq/Prep/Cache.v (hand transcription, tied on the wire)", "harness/src/bin/wire.rs + mockpg.rs + props/c08wire.py",
                                "harness/src/bin/codec.rs", "props/c08.py + props/c08lib.py (generators, SipHash-1-3 and splice oracles, Rust Debug parser)",
                                "Print Assumptions: Closed under the global context (all theorems)"]
     have = [f for f in COQ_FILES if os.path.exists(os.path.join(vlib.COQ, f))]
@@ -979,22 +978,28 @@ def check(run):
         wt = wire_tie(run, quick)
         evals += wt.get("scenarios", 0)
         run.log("layer 2 on the wire: %s" % wt)
-        for x in sorted(wt.get("known_classes_seen", {})):
-            if x.startswith("F11"):
-                run.known_finding("%s statement caching visible to clients (message sequence class, see DESIGN C08): seen in %d generated/hand-made scenarios" % (F11[x], wt["known_classes_seen"][x]), key=F11[x])
+        for (nm, k, ns, ops, why) in WITNESSES:
+            if nm.startswith("F11") and not run.violations:
+                fid = F11[nm.split("-")[0]]
+                run.known_finding("%s confirmed on the wire (pgcat = model, differs from a direct connection): cache size %d, %s — %s" % (fid, k, prog_coq(ops), why.split(": ", 1)[-1][:260]), key=fid)
     run.cov["layer2_wire"] = wt
     run.cov["layer2_model_level"] = l2
     run.cov["layer2_wire_scenarios"] = [{"name": w["name"], "cache_size": w["cache_size"], "servers": w["servers"], "ops": prog_coq(w["ops"]),
                                          "confirmed_on_wire": w["needs_wire_confirmation"], "why": w["why"],
                                          "model_client_obs": w["model"]["client_obs"], "direct_connection": w["model"]["direct_connection"]} for w in wire]
 
+    f8 = []
     for k, v in sorted(tie.findings.items()):
         if k.startswith("bind-rename-nonutf8"):
-            run.known_finding("F8b Bind::rename computes the new length from the lossy-decoded name: a statement name that is not valid UTF-8 yields a frame whose length field is wrong (input %s, renamed to %s -> %s, splice would be %s)" % v, key="F8b")
+            f8.append("Bind::rename takes the new length from the lossy-decoded name: %s renamed to %s -> %s (splice: %s)" % v)
         elif k.startswith("parse-noncanonical"):
-            run.known_finding("F8a buffer_parse decodes and re-encodes instead of splicing: a Parse with bytes after its parameter types (or an unterminated query) reaches the server trimmed, e.g. %s -> %s (name/length splice would be %s)" % v, key="F8a")
+            f8.append("a Parse with bytes after its parameter types is trimmed: %s -> %s (splice: %s)" % v)
         elif k.startswith("parse-nonutf8"):
-            run.known_finding("F8 query text / statement name that is not valid UTF-8 (any other client_encoding) is rewritten by String::from_utf8_lossy in buffer_parse: %s -> %s (name/length splice would be %s)" % v, key="F8")
+            f8.append("non-UTF-8 query text / name is rewritten by from_utf8_lossy in buffer_parse: %s -> %s (splice: %s)" % v)
+        elif k.startswith("parse-negative-count"):
+            run.known_finding("F8c-negative-num-params Parse with a negative parameter count: the encoder used by buffer_parse %s (input %s)" % (v[1], v[0]), key="F8c-negative-num-params")
+    if f8:
+        run.known_finding("F8-lossy-utf8 statement caching decodes and re-encodes instead of splicing: " + "; ".join(f8), key="F8-lossy-utf8")
 
     run.cov["evaluations"] = evals
     run.cov["distinct_nontrivial"] = distinct
@@ -1019,6 +1024,21 @@ def replay(run, path):
     print(json.dumps(r, indent=1)[:3000])
     ok, blog, bins = vlib.cargo_build(["codec"])
     inp = r.get("input", {})
+    if "ops" in inp and "k" in inp:
+        okw, _, binsw = vlib.cargo_build(["wire"])
+        p = {"name": inp.get("name", "replay"), "k": inp["k"], "servers": inp.get("servers", 1), "ops": CW.atomicize(inp["ops"])}
+        (pr,) = predict([p], "c08rp")
+        res = W.run_scenario(binsw["wire"], CW.scenario(p), timeout=120)
+        obs = CW.observe(p, res)
+        d = CW.diff(p, obs, pr)
+        a = CW.normalise_obs(obs)
+        spec = CW.normalise_obs({"clients": {c: [o for o in pr["direct_connection"] if o["client"] == c] for c in {o["client"] for o in pr["direct_connection"]}}})
+        like = all(pynorm(a.get(c, [])) == pynorm(spec.get(c, [])) for c in set(a) | set(spec))
+        print("replay: implementation", json.dumps({str(k): v for k, v in a.items()}))
+        print("replay: model = implementation: %s; like a direct connection: %s; guard: %s; monitor: %s" % (not d, like, pr["guard"], obs["monitor"]))
+        for x in d:
+            print("   ", x[:600])
+        return 0 if (not d and not obs["monitor"] and (like or not pr["guard"])) else 1
     if "op" in inp and "hex" in inp:
         b, m = bytes.fromhex(inp["hex"]), bytes.fromhex(inp.get("new_name_hex", ""))
         tie = Tie(run, bins["codec"], True, "replay")
